@@ -30,6 +30,9 @@ def coq_op(o, rel):
         return "(OFault %s)" % zl(o[1])
     if o[0] == "restart":
         return "(ORestart %s %s)" % (cb(o[1]), cb(o[2]))
+    if o[0] == "reorg":
+        body = "[" + "; ".join("(%s, %s)" % (vlib.z(t), cb(t in rel)) for t in o[4]) + "]"
+        return "(OReorg %s %s %s %s)" % (vlib.z(o[1]), vlib.z(o[2]), zl(o[3]), body)
     raise KeyError(o[0])
 
 
@@ -46,10 +49,11 @@ def sym_root(ids):
 
 
 def relink(ops, insync=0):
-    """prev of every block op := the tip at that moment (what a peer extending the chain would send).
+    """prev of every block op := the tip at that moment (what a peer extending the chain would send); prev of a
+    reorg op := the header o[5] blocks below the tip (a competing branch).
     Follows what the node holds: a header is added when the block passes the gates (even if processing is
     then cut short by a fault), headers are saved after every block only when in sync, a hard restart goes
-    back to the saved headers."""
+    back to the saved headers, a revert saves the truncated chain and clears in sync."""
     chain, saved = [], []
     out = []
     for o in ops:
@@ -60,6 +64,17 @@ def relink(ops, insync=0):
                 chain = chain + [o[1]]
                 if insync:
                     saved = list(chain)
+        elif o[0] == "reorg":
+            d = min(o[5], len(chain))
+            keep = chain[:len(chain) - d]
+            o = ["reorg", o[1], keep[-1] if keep else 0, o[3], o[4], o[5]]
+            if o[1] not in chain:
+                if d > 0:
+                    chain, saved, insync = keep, list(keep), 0
+                if sym_root(o[4]) == sym_root(o[3]):
+                    chain = chain + [o[1]]
+                    if insync:
+                        saved = list(chain)
         elif o[0] == "restart":
             if o[1]:
                 saved = list(chain)
@@ -253,6 +268,87 @@ def gen_abort_case(rng, k):
     return {"cfg": cfg, "ops": relink(ops, cfg["insync"]), "tags": tags}
 
 
+def gen_reorg_case(rng, k):
+    """confirm -> revert (competing header through the real headers handler) -> re-announce (or not) ->
+    confirm on the new branch, at another index with other siblings; also: restart before the new
+    confirmation, a transaction reverted twice, revert of two blocks, the tx directly in the competing block"""
+    cfg = {"insync": k % 2 if k < 8 else int(rng.chance(1, 2)), "parse": int(rng.chance(1, 2)), "rel": []}
+    ops, tags = [], ["reorg"]
+    nxt = [1]
+    hid = [0]
+
+    def fresh(n):
+        r = list(range(nxt[0], nxt[0] + n))
+        nxt[0] += n
+        return r
+
+    def new_hid():
+        hid[0] += 1
+        return hid[0]
+
+    def block_with(ts, n):
+        """a body of n txs holding the transactions ts at random positions, the rest fresh"""
+        n = max(n, len(ts))
+        body = fresh(n - len(ts))
+        for t in ts:
+            body.insert(rng.below(len(body) + 1), t)
+        for t in body:
+            if t not in ts and rng.chance(1, 6):
+                cfg["rel"].append(t)
+        return body
+
+    T = fresh(rng.weighted([(1, 5), (2, 3), (3, 1)]))
+    cfg["rel"] += T
+    if rng.chance(2, 3):                                   # a parent block P
+        b = block_with([], rng.range(1, 3))
+        ops.append(["block", new_hid(), 0, b, list(b), 0])
+    for t in T:
+        if rng.chance(2, 3):
+            ops.append(["seen", t])                        # seen unconfirmed first, else first seen in block A
+    rounds = 2 if (k % 5 == 4 or rng.chance(1, 6)) else 1  # reverted twice
+    for rnd in range(rounds):
+        if rnd == 0:                                       # (in a second round the last block C plays A)
+            a = block_with(T, rng.choice([1, 2, 3, 4, 5, 6, 7, 9]))
+            ops.append(["block", new_hid(), 0, a, list(a), 0])
+        depth = 1
+        if rng.chance(1, 4):                               # one more block on top: revert of two
+            a2 = block_with([], rng.range(1, 4))
+            ops.append(["block", new_hid(), 0, a2, list(a2), 0])
+            depth = 2
+        if rng.chance(1, 8):
+            ops.append(["seen", rng.choice(T)])            # announced again while still confirmed: nothing
+        direct = [t for t in T if rng.chance(1, 6)]        # back at once in the competing block
+        bb = block_with(direct, rng.range(1, 5))
+        ops.append(["reorg", new_hid(), 0, bb, list(bb), depth])
+        rest = [t for t in T if t not in direct]
+        mode = rng.weighted([("reannounce", 6), ("none", 2), ("restart", 3)])
+        if mode == "restart":
+            first = rng.chance(1, 2)
+            if first:
+                ops.append(["restart", int(rng.chance(1, 2)), int(rng.chance(1, 2))])
+            for t in rest:
+                if rng.chance(4, 5):
+                    ops.append(["seen", t])
+            if not first:
+                ops.append(["restart", int(rng.chance(1, 2)), int(rng.chance(1, 2))])
+                # a hard restart may have lost the competing block: it is delivered again
+                ops.append(["block", hid[0], 0, bb, list(bb), 0])
+        elif mode == "reannounce":
+            for t in rest:
+                if rng.chance(5, 6):
+                    ops.append(["seen", t])
+                    if rng.chance(1, 8):
+                        ops.append(["seen", t])
+        if rest:
+            c = block_with(rest, rng.choice([2, 3, 4, 5, 6, 7, 8, 11]))
+            ops.append(["block", new_hid(), 0, c, list(c), 0])
+            T = rest
+        else:
+            break
+    cfg["rel"] = sorted(set(cfg["rel"]))
+    return {"cfg": cfg, "ops": relink(ops, cfg["insync"]), "tags": tags}
+
+
 def finish_case(c):
     rel = set(c["cfg"]["rel"])
     c["coq_ops"] = [coq_op(o, rel) for o in c["ops"]]
@@ -263,9 +359,9 @@ def finish_case(c):
 def outside_hypothesis(ops):
     """a lying block type, or duplicate txids inside a body / committed list (the CVE-2012-2459 shape)"""
     for o in ops:
-        if o[0] == "block":
-            if len(o) > 5 and o[5]:
-                return True
+        if o[0] == "block" and len(o) > 5 and o[5]:
+            return True
+        if o[0] in ("block", "reorg"):
             if len(set(o[3])) != len(o[3]) or len(set(o[4])) != len(o[4]):
                 return True
     return False
@@ -274,7 +370,8 @@ def outside_hypothesis(ops):
 def make_suite(cases):
     for c in cases:
         finish_case(c)
-    hyp = {"hyp_valid": "fun ops _ => if c04_valid ops then None else Some (0, [900])"}
+    hyp = {"hyp_valid": "fun ops tr => if c04_valid_tr ops tr then None else Some (0, [900])",
+           "reannounce": "c04_reannounce_monitor"}
     inside = [c for c in cases if not outside_hypothesis(c["ops"])]
     outside = [c for c in cases if outside_hypothesis(c["ops"])]
     groups = [{"key": "merkle", "cases": inside, "per_case_model": True,
@@ -306,11 +403,14 @@ def suites(tier, rng, replay):
                 r = rng.fork(4000 + k)
                 k += 1
                 cases.append(gen_case(r, n, mode, lie_ok=False))
-        n = 250 if tier == "quick" else 3000
+        n = 300 if tier == "quick" else 3000
         nab = 60 if tier == "quick" else 700
         for i in range(nab):
             cases.append(gen_abort_case(rng.fork(70000 + i), i))
-        for i in range(max(0, n - k - nab)):
+        nre = 50 if tier == "quick" else 600
+        for i in range(nre):
+            cases.append(gen_reorg_case(rng.fork(90000 + i), i))
+        for i in range(max(0, n - k - nab - nre)):
             r = rng.fork(40000 + i)
             cases.append(gen_case(r))
     # what was covered (printed into the evidence, not assumed)
@@ -321,7 +421,7 @@ def suites(tier, rng, replay):
         for o in c["ops"]:
             if o[0] == "seen":
                 seen.add(o[1])
-            elif o[0] == "block":
+            elif o[0] in ("block", "reorg"):
                 sizes[len(o[4])] = sizes.get(len(o[4]), 0) + 1
                 if o[3] == o[4]:
                     nrel += sum(1 for t in o[4] if t in rel)
@@ -338,10 +438,25 @@ def suites(tier, rng, replay):
 
 
 def extra(tier, rng, workdir):
-    return {"coverage": {"input_distribution": dict(COVER)}}
+    note = {"histories": len(REANNOUNCED)}
+    if REANNOUNCED:
+        r = min(REANNOUNCED, key=lambda x: len(x["ops"]))
+        note.update({"what": "unconfirmed re-announcement delivered as a new tx carrying the merkle proof of a "
+                             "reverted block (header not held any more) and unconfirmed depth 0",
+                     "cfg": r["cfg"], "ops": r["ops"], "step": r["step"], "observed": r["observed"]})
+    return {"coverage": {"input_distribution": dict(COVER), "reannounced_with_stale_proof_not_counted_as_C04": note}}
+
+
+REANNOUNCED = []
 
 
 def accept_failure(rec):
+    # "reannounce" (code 431): an unconfirmed re-announcement of a transaction whose block was reverted is
+    # delivered with that block's stale proof and depth 0.  The text of C04 speaks of the notification for a
+    # transaction included in a block, so this is recorded in the evidence (and reported), not counted as C04.
+    if rec.get("checker") == "reannounce":
+        REANNOUNCED.append(rec)
+        return False
     # histories outside the property's hypotheses never count as property failures (they are counted by hyp_valid)
     return not outside_hypothesis(rec.get("ops", []))
 
